@@ -19,6 +19,9 @@
 #ifndef VERIF_NATIVE
 extern unsigned long long verif_k;	/* ghost index: one arbitrary bit / byte / slot */
 extern int verif_old_bit;		/* value of bit verif_k on entry */
+/* generic ghost registers for loop invariants (meaning documented by the unit that defines them) */
+extern unsigned long long verif_g0, verif_g1, verif_g2, verif_g3, verif_g4, verif_g5, verif_g6, verif_g7;
+extern const unsigned char *verif_p0, *verif_p1, *verif_p2, *verif_p3;
 /* bit k of a byte array, as 0/1 (no function calls are allowed in invariants) */
 #define VERIF_BIT(arr, k) ((((const unsigned char *)(arr))[(k) >> 3] >> ((k) & 7)) & 1)
 #endif
